@@ -50,6 +50,8 @@ def units(tier):
     for k in range(6):
         yield {"leg": "cli", "k": k}
     yield {"leg": "fresh-process"}
+    for lst in ([0, 0, 1], [2, 3, 2, 0], [1, 1, 1, 1, 2]):
+        yield {"leg": "floatcount", "list": lst}
 
 
 def _records(lst, symm):
@@ -149,6 +151,52 @@ def _api(R, unit, tier, only):
                         R.outcome(sorted((k, v["count"]) for k, v in got.items()))
                     finally:
                         scratch.rm(out)
+    scratch.rm(tdir)
+
+
+def _floatcount(R, lst, only):
+    """the value column itself is float64 with fractional values (non-default dtype): single- and two-pass merges must keep them"""
+    import cooler
+    bins = alpha.table_bins(fx.TABLE_F, "chr")
+    bdf = build.bins_df(bins)
+    recs = [(ALPHA_SYMM[p], 0.25 + 1.5 * (q + 1)) for q, p in enumerate(lst)]
+    want = models.ref_aggregate(recs)
+    m = len(recs)
+    R.add("states")
+    R.add("traces")
+    tdir = scratch.sub(f"c06f{os.getpid()}")
+    kk = 0
+    for part in alpha.ordered_set_partitions(min(m, 4)) if m <= 4 else [[[q] for q in range(m)], [[0, 1], [2], [3, 4]], [[4], [3], [2], [1], [0]]]:
+        for mm in (1, 2, 200):
+            for buf in (1, 10 ** 6):
+                kk += 1
+                inner = {"chunks": part, "max_merge": mm, "mergebuf": buf}
+                if only is not None and only != inner:
+                    continue
+                R.order = (R.order[0], kk)
+                R.ev(1, 1 if len(part) > 1 else 0)
+                R.add("transitions")
+                R.cls("float-count")
+                R.cls("two-pass" if len(part) > mm > 0 else "single-pass")
+                out = scratch.fresh()
+                try:
+                    chunks = []
+                    for blk in part:
+                        acc = {}
+                        for q in blk:
+                            acc[recs[q][0]] = acc.get(recs[q][0], 0.0) + recs[q][1]
+                        ks = sorted(acc)
+                        chunks.append(pd.DataFrame({"bin1_id": [k[0] for k in ks], "bin2_id": [k[1] for k in ks], "count": np.array([acc[k] for k in ks], dtype=float)}))
+                    try:
+                        cooler.create_cooler(out, bdf, iter(chunks), dtypes={"count": np.float64}, ordered=False, mergebuf=buf, max_merge=mm, temp_dir=tdir)
+                    except Exception as e:
+                        R.mismatch("create-raises:" + type(e).__name__, inner, f"{e!s:.300}")
+                        continue
+                    got, rd = fx.read(out)
+                    if {k: v["count"] for k, v in got.items()} != want:
+                        R.mismatch("result!=in-memory-aggregate", inner, f"got={got} want={want}")
+                finally:
+                    scratch.rm(out)
     scratch.rm(tdir)
 
 
@@ -291,6 +339,8 @@ def run(unit, R, tier, only=None):
         _cli(R, unit["k"], only)
     elif leg == "fresh-process":
         _fresh(R, only)
+    elif leg == "floatcount":
+        _floatcount(R, unit["list"], only)
     else:
         raise ValueError(leg)
 
